@@ -205,7 +205,7 @@ def cases(draw, max_rows=6):
     spacer = draw(st.sampled_from([" ", " ", "  ", "\t", " \t", ""]))
     lhs = draw(st.sampled_from([" ", " ", "", "   ", "\t"]))
     r = draw(st.integers(1, max_rows))
-    nullspec = draw(st.sampled_from([None, None, None, None, None, ["f", "1e+30"], ["f", "-1e+20"], ["i", -999], ["f", "-999.25"], ["i", 2147483647]]))
+    nullspec = draw(st.sampled_from([None, None, None, None, None, ["f", "1e+30"], ["f", "-1e+20"], ["i", -999], ["f", "-999.25"], ["i", 2147483647], ["i", 0], ["f", "0.0"]]))
     nullv = -9999.25 if nullspec is None else float(build.val(nullspec))
     full = draw(st.booleans())
 
